@@ -154,12 +154,15 @@ class OnionWorld:
                 c += [{"cid": self.cid(rc),
                     "goal": ci.goal_hops, "hops": [self.name_of_peer(h.peer) for h in ci.hops],
                     "unv": self.name_of_peer(ci.unverified_hop.peer) if ci.unverified_hop else "none",
-                    "closing": ci.state == "CLOSING", "early": ci.relay_early_count}]
+                    "closing": ci.state == "CLOSING", "early": ci.relay_early_count,
+                    "ctype": {"RP_DOWNLOADER": "RPD", "RP_SEEDER": "RPS"}.get(ci.ctype, ci.ctype),
+                    "hs": ci.hs_session_keys is not None}]
             st["circ"][nm] = c
             r = []
             for rc, ro in ov.relay_from_to.items():
                 r += [{"cid": self.cid(rc), "to": self.cid(ro.circuit_id), "next": self.name_of_addr(ro.hop.address),
-                                        "dir": "F" if ro.direction == 0 else "B", "early": ro.relay_early_count}]
+                                        "dir": "F" if ro.direction == 0 else "B", "early": ro.relay_early_count,
+                       "rdv": bool(ro.rendezvous_relay)}]
             st["relay"][nm] = r
             e = []
             for rc, ex in ov.exit_sockets.items():
@@ -189,7 +192,8 @@ class OnionWorld:
             st["retryC"][nm], st["createdC"][nm], st["createC"][nm], st["pingC"][nm] = retry, sorted(created), create, sorted(ping)
         st["net"] = [self.describe(d) for d in self.net.inflight]
         st["exitLog"] = self.exit_log()
-        st["origLog"] = [{"n": n, "cid": self.cid(c), "p": self.payload_id(data), "origin": "outside"}
+        st["origLog"] = [{"n": n, "cid": self.cid(c), "p": self.payload_id(data),
+                          "origin": "null" if tuple(origin) == ("0.0.0.0", 0) else "outside"}
                          for (n, c, origin, data) in self.raw_log]
         st["transports_open"] = {nm: self.open_transports(nm) for nm in self.names}
         return st
@@ -332,6 +336,43 @@ class OnionWorld:
         ov = self.ov[o]
         self.loop.call(ov.remove_circuit, self.real_cid(spec_cid), "driver", False, 1 if destroy else False)
         return self.log("RemoveCircuit", o=o, cid=spec_cid, destroy=bool(destroy))
+
+    # -- hidden services (the link is performed by the harness on the real tables, as on_link_e2e does)
+    def link_e2e(self, rp, c1, c2, o1, k1, o2, k2):
+        from ipv8.messaging.anonymization.tunnel import FORWARD, Hop, RelayRoute
+        from ipv8_rust_tunnels import generate_session_keys
+        ov = self.ov[rp]
+        e1, e2 = ov.exit_sockets[self.real_cid(c1)], ov.exit_sockets[self.real_cid(c2)]
+        self.loop.call(ov.remove_exit_socket, e1.circuit_id, "linking circuit")
+        self.loop.call(ov.remove_exit_socket, e2.circuit_id, "linking circuit")
+        ov.relay_from_to[e1.circuit_id] = RelayRoute(e2.circuit_id, Hop(e2.hop.peer, e1.hop.keys), FORWARD, True)
+        ov.relay_from_to[e2.circuit_id] = RelayRoute(e1.circuit_id, Hop(e1.hop.peer, e2.hop.keys), FORWARD, True)
+        secret = self.rng.randbytes(64)
+        ca, cb = self.ov[o1].circuits[self.real_cid(k1)], self.ov[o2].circuits[self.real_cid(k2)]
+        ca.ctype, cb.ctype = "RP_DOWNLOADER", "RP_SEEDER"
+        ca.hs_session_keys = generate_session_keys(secret)
+        cb.hs_session_keys = generate_session_keys(secret)
+        self.keys.setdefault(bytes(ca.hs_session_keys.key_forward), ca.hs_session_keys)
+        return self.log("LinkE2E", rp=rp, c1=c1, c2=c2, o1=o1, k1=k1, o2=o2, k2=k2)
+
+    def send_e2e(self, o, spec_cid, p, size=0):
+        ov = self.ov[o]
+        c = ov.circuits[self.real_cid(spec_cid)]
+        self.loop.call(ov.send_data, c.hop.address, c.circuit_id, ("2.2.2.2", 2000), ("0.0.0.0", 0), self.payload(p, size))
+        return self.log("SendE2E", o=o, cid=spec_cid, p=p)
+
+    def rp_forge(self, rp, spec_cid):
+        """the rendezvous point fabricates a data cell for the far side of relay entry spec_cid (hop keys, no e2e key)"""
+        from ipv8.messaging.anonymization.payload import DataPayload
+        ov = self.ov[rp]
+        entry = ov.relay_from_to[self.real_cid(spec_cid)]
+        other = ov.relay_from_to[entry.circuit_id]
+        pl = DataPayload(entry.circuit_id, ("2.2.2.2", 2000), ("0.0.0.0", 0), self.payload(0))
+        message = bytes([1]) + ov.serializer.pack_serializable(pl)[4:]
+        blob = other.hop.keys.encrypt_str(message, 1)
+        dg = self.net.inject(self.nodes[rp].address, entry.hop.address, self._cell_bytes(entry.circuit_id, False, False, blob))
+        self.net.inflight.append(dg)
+        return self.log("RPForge", rp=rp, cid=spec_cid)
 
     def pending_sockets(self):
         """exit sockets (node name, spec cid) whose outside transports are still being opened"""
